@@ -540,7 +540,8 @@ pub fn plans(id: &str, tier: Tier) -> Vec<Plan> {
 pub fn run(id: &str, report: &mut Report, budget: Duration) {
     let started = Instant::now();
     let plans = plans(id, report.tier);
-    let per_plan = budget / plans.len().max(1) as u32;
+    // quick: the budget is shared out evenly; thorough: most plans are bounded and short, so each may take a third
+    let per_plan = if report.tier.thorough() { budget / 3 } else { budget / plans.len().max(1) as u32 };
     let mut states: HashSet<u64> = HashSet::new();
     let mut transitions = 0u64;
     let mut executions = 0u64;
